@@ -9,7 +9,7 @@ import CopVerif.Model.GaussCond
        <d> <d labels: training columns in order> <d·d entries of self.correlation, row after row>
        <k> <k keys: the caller's order> <k values: the caller's original values>
        <d·k scores: for training column i and caller item j the REAL Φ⁻¹(clip(F_i(value_j)))>
-       <n> <m> <n·m recorded draws, row after row>
+       <n> <m> <n·m recorded draws, row after row, columns in the order of the SORTED draw labels>
   ```
   `score c x` is looked up in the score table by the label `c` and by the position of the value
   `x` among the caller's values (bit equality), so pairing a column with another key's value shows.
